@@ -131,9 +131,9 @@ ENTRIES = {
     "gradient_descent_lyapunov_2": E(PF, "wc_gradient_descent_lyapunov_2", "tight", [dict(L=L, gamma=1 / L, n=n) for L in (1.0, 2.0) for n in (1, 10)], abs_tol=5e-5),
     "accelerated_gradient_method_potential": E(PF, "wc_accelerated_gradient_method", "tight", [dict(L=L, gamma=1 / L, lam=lam) for L in (1.0, 2.0) for lam in (10.0, 1.0)], abs_tol=5e-5),
     "polyak_steps_in_distance_to_optimum": E(AD, "wc_polyak_steps_in_distance_to_optimum", "tight",
-                                              [dict(L=L, mu=0.1 * L, gamma=g / L) for L in (1.0, 2.0) for g in (1.0, 1.3, 2.0, 5.0, 10.0)], abs_tol=5e-5),
+                                              [dict(L=L, mu=0.1 * L, gamma=g / L) for L in (1.0, 2.0, 0.5) for g in (1.0, 1.3, 2.0, 5.0, 10.0)], abs_tol=5e-5),
     "polyak_steps_in_function_value": E(AD, "wc_polyak_steps_in_function_value", "tight",
-                                         [dict(L=L, mu=0.1 * L, gamma=g / L) for L in (1.0, 2.0) for g in (1.0, 1.3, 1.6, 1.9, 2.0)], abs_tol=5e-5),
+                                         [dict(L=L, mu=0.1 * L, gamma=g / L) for L in (1.0, 2.0, 0.5) for g in (1.0, 1.3, 1.6, 1.9, 2.0)], abs_tol=5e-5),
     # ---- inexact proximal
     "accelerated_inexact_forward_backward": E(IP, "wc_accelerated_inexact_forward_backward", "upper", [dict(L=L, zeta=z, n=n) for L in (10.0, 1.0) for z in (0.87, 0.5) for n in (2, 5)]),
     "partially_inexact_douglas_rachford_splitting": E(IP, "wc_partially_inexact_douglas_rachford_splitting", "tight",
@@ -216,3 +216,29 @@ for _k in list(EXTRA):
 
 def grid(name, tier):
     return ENTRIES[name]["grid"] + (EXTRA.get(name, []) if tier == "thorough" else [])
+
+
+# ---- closed forms transcribed from the docstrings (independent of the value the example itself returns) -----------------
+
+def _ogm(kw):
+    th = 1.0
+    for t in range(1, kw["n"] + 1):
+        th = (1 + math.sqrt(4 * th ** 2 + 1)) / 2 if t < kw["n"] else (1 + math.sqrt(8 * th ** 2 + 1)) / 2
+    return kw["L"] / (2 * th ** 2)
+
+
+def _robust(kw):
+    kappa = kw["L"] / kw["mu"]
+    rho = kw["lam"] * (1 - 1 / kappa) + (1 - kw["lam"]) * (1 - 1 / math.sqrt(kappa))
+    return rho ** 2
+
+
+DOC = {
+    "gradient_descent": lambda kw: kw["L"] / (4 * kw["n"] * kw["L"] * kw["gamma"] + 2),
+    "gradient_descent_contraction": lambda kw: max((1 - kw["L"] * kw["gamma"]) ** 2, (1 - kw["mu"] * kw["gamma"]) ** 2) ** kw["n"],
+    "proximal_point": lambda kw: 1 / (4 * kw["gamma"] * kw["n"]),
+    "optimized_gradient": _ogm,
+    "robust_momentum": _robust,
+    "heavy_ball_momentum": lambda kw: (1 - kw["alpha"] * kw["mu"]) ** kw["n"],
+    "accelerated_gradient_convex": lambda kw: 2 * kw["L"] / (kw["n"] ** 2 + 5 * kw["n"] + 6) if kw.get("mu", 0) == 0 else None,
+}
